@@ -18,7 +18,7 @@ from .. import units, guards, effects
 
 MANIFEST = {
     "level": "other",
-    "technique": "static analysis: symbolic evaluation to terms and polynomial normal form with sin^2+cos^2=1, sin/cos(atan x) and sqrt(x)^2=x (ellipse identity, height terms, rp = a*rho*cos(phi'), curvature limits, symmetry of the distance formula), term equality of the Andoyer-Lambert distance and of the topocentric parallax formulae (cross-multiplied atan2 arguments) with the published ones, algebra-decided guard of the coincident-point singularity, unit inference, guard dominance",
+    "technique": "static analysis: symbolic evaluation to terms and polynomial normal form with sin^2+cos^2=1, sin/cos(atan x) and sqrt(x)^2=x (ellipse identity, height terms, rp = a*rho*cos(phi'), curvature limits, symmetry of the distance formula), term equality of the Andoyer-Lambert distance and of the topocentric parallax formulae (cross-multiplied atan2 arguments) with the published ones, algebra-decided guard of the coincident-point singularity, unit inference, guard dominance; the Angle / Epoch operator semantics the evaluator assumes are verified (operator conformance, operands never written)",
     "text": "The ellipsoid identities named in the property are discharged symbolically for every latitude and for arbitrary (a, f), hence for both built-in ellipsoids; symmetry of the distance formula is shown by exchanging the two points in the symbolic result. Every value-returning path of the distance is the Andoyer-Lambert formula or the guarded coincident-point case (no division by the identically vanishing s there); parallax_correction is the rigorous topocentric projection (for which the displacement is bounded by the horizontal parallax) with sin(pi) = sin(8.794 arcsec)/distance. Numerical statements (1e-4 agreement with the meridian integral, 0.6 % bound) are not decided.",
     "note": "Trusted: term/polynomial engine incl. the atan and sqrt relations (valid for positive radicands); Ellipsoid fields are read through self._ellip. Undecided: curvature integral, 0.6 % bound, parallax_ecliptical's closed form.",
 }
